@@ -105,13 +105,16 @@ func (m *Mutex) Unlock() {
 	}
 }
 
-// RWMutex is a simulated sync.RWMutex without writer preference: the
-// scheduler may pick any compatible waiter (a superset of real hand-offs).
+// RWMutex is a simulated sync.RWMutex. Like the real one it does not admit new
+// readers while a writer is waiting (so a goroutine that takes the read lock
+// twice deadlocks when a writer arrives in between, as it does in production);
+// among compatible waiters the scheduler decides who goes next.
 type RWMutex struct {
-	g       sync.Mutex
-	writer  bool
-	readers int
-	waiters []chan struct{}
+	g              sync.Mutex
+	writer         bool
+	readers        int
+	writersWaiting int
+	waiters        []chan struct{}
 }
 
 func (m *RWMutex) wait() {
@@ -134,12 +137,20 @@ func (m *RWMutex) wakeAll() {
 // Lock acquires the write lock.
 func (m *RWMutex) Lock() {
 	sim.Yield(sim.GateMutex, "rwmutex.Lock")
+	waiting := false
 	for {
 		m.g.Lock()
 		if !m.writer && m.readers == 0 {
 			m.writer = true
+			if waiting {
+				m.writersWaiting--
+			}
 			m.g.Unlock()
 			return
+		}
+		if !waiting {
+			waiting = true
+			m.writersWaiting++
 		}
 		m.wait()
 	}
@@ -161,7 +172,7 @@ func (m *RWMutex) RLock() {
 	sim.Yield(sim.GateMutex, "rwmutex.RLock")
 	for {
 		m.g.Lock()
-		if !m.writer {
+		if !m.writer && m.writersWaiting == 0 {
 			m.readers++
 			m.g.Unlock()
 			return
